@@ -238,6 +238,11 @@ def w_arith(arg):
             X = cls(a0); X -= B; yield 'A-=B', X, [x - y for x, y in zip(va, vb)]
             X = cls(a0); X += B; X += C; X -= B; yield 'A+=B;A+=C;A-=B', X, [x + z for x, z in zip(va, vc)]
             X = cls(a0); X.truncate(1, inplace=True); yield 'truncate-inplace', X, [val(a0, q, nmax=1) for q in qs]
+            for nm in (0, 1, 2):      # terms listed in decreasing / shuffled order of n (the class keeps the order it is given)
+                X = cls(list(reversed(a0))); X.truncate(nm, inplace=True); yield 'truncate-inplace(reversed term order)', X, [val(a0, q, nmax=nm) for q in qs]
+                perm = [a0[k] for k in rng.permutation(len(a0))]
+                X = cls(perm); X.truncate(nm, inplace=True); yield 'truncate-inplace(shuffled term order)', X, [val(a0, q, nmax=nm) for q in qs]
+                X = cls(perm).truncate(nm); yield 'truncate(shuffled term order)', X, [val(a0, q, nmax=nm) for q in qs]
             X = cls(a0); X.reduce(); yield 'reduce', X, va
             X = cls(a0); X.separate(); yield 'separate', X, va
             X = cls(a0); X.reduce(); X.separate(); yield 'reduce;separate', X, va
